@@ -213,14 +213,18 @@ Definition addAll (hf : nid -> Z) (l : list nid) (w : Heap.t) : res Heap.t :=
 Definition afterLocal (s : state) (n : nid) : state :=
   s <| nodes := alter (localF s n) n (nodes s) |> <| log := localEvs s n ++ log s |>.
 
+(** the children the locked section queues (candidates: the heap-membership test comes on top) *)
 Definition pushlist (s : state) (n : nid) : list nid :=
-  filter (fun c => wantPush (afterLocal s n) c = true) (children (nd s n)).
+  if cutv s n then []
+  else filter (fun c => wantPush (afterLocal s n) c = true) (children (nd s n)).
+
+(** the keys the node files under handleAfterStabilization: itself and its observers *)
+Definition hkeys (s : state) (n : nid) : list nid :=
+  if cutv s n then [] else n :: observers (nd s n).
 
 Definition newHandlers (s : state) (n : nid) : list nid :=
-  foldl (fun l o => insert_sorted o l) (insert_sorted n (handlers s)) (observers (nd s n)).
+  foldl (fun l o => insert_sorted o l) (handlers s) (hkeys s n).
 
 Definition rnp_spec (s : state) (n : nid) : res (state * option err) :=
-  let s1 := afterLocal s n in
-  if cutv s n then Ok (s1, None)
-  else w <-! addAll (fun c => height (nd s c)) (pushlist s n) (heap s);
-       Ok (s1 <| heap := w |> <| handlers := newHandlers s n |>, None).
+  w <-! addAll (fun c => height (nd s c)) (pushlist s n) (heap s);
+  Ok (afterLocal s n <| heap := w |> <| handlers := newHandlers s n |>, None).
